@@ -359,9 +359,7 @@ def visitS (s : Stmt) (st : St) : St :=
           let st := st.pushFn (.fn i name)
           let st := st.enter false
           let st := visitEs decos st
-          let st := match returns with
-            | [] => st
-            | _ => (visitEs returns (st.setInAnno true)).setInAnno false
+          let st := if returns.isEmpty then st else (visitEs returns (st.setInAnno true)).setInAnno false
           -- _visit_arg_annotations
           let st := visitEs kd st
           let st := visitEs df st
